@@ -235,3 +235,29 @@ Theorem C07_function_constant_import_fixed : forall site isfn i q fs ov fs' fd,
   fn_imports_ok fd = true.
 Proof. exact fn_constant_import_fixed. Qed.
 Print Assumptions C07_function_constant_import_fixed.
+
+(* ---- a replacement that returns an existing value, object level, both variants of the code ------------------------------ *)
+(* as read (splice_names false): Identity(x) -> x with x a graph input renames the input *)
+Theorem C07_returned_value_as_read_refuted :
+  exists created pinned olds news vs outs fresh r,
+    splice_names false created pinned true olds news vs outs fresh = Some r /\
+    names_of_objects [0] (fst (fst (fst r))) <> names_of_objects [0] vs.
+Proof. exact returned_value_as_read_refuted. Qed.
+Print Assumptions C07_returned_value_as_read_refuted.
+
+(* repaired (splice_names true; proposed_fixes/ready/C07_05): no graph input is renamed, whatever the replacement returns *)
+Theorem C07_returned_value_fixed : forall created pinned is_fwd olds news vs outs fresh r inputs,
+  splice_names true created pinned is_fwd olds news vs outs fresh = Some r ->
+  (forall x, In x inputs -> In x pinned /\ ~ In x created /\ x < fresh) ->
+  names_of_objects inputs (fst (fst (fst r))) = names_of_objects inputs vs.
+Proof. exact returned_value_fixed. Qed.
+Print Assumptions C07_returned_value_fixed.
+
+(* ... and, for one pattern output, the graph outputs keep their names in order.  Partial: several pattern outputs at once
+   are not covered by this statement (the correspondence observes them on the real code only for one output) *)
+Theorem C07_returned_value_fixed_output_names_partial : forall created pinned o n vs outs fresh r,
+  splice_names true created pinned false [o] [n] vs outs fresh = Some r ->
+  (forall y, In y outs -> In y pinned /\ ~ In y created /\ y < fresh) ->
+  names_of_objects (snd (fst (fst r))) (fst (fst (fst r))) = names_of_objects outs vs.
+Proof. exact returned_value_fixed_output_names_single. Qed.
+Print Assumptions C07_returned_value_fixed_output_names_partial.
